@@ -476,10 +476,26 @@ class Env:
             self.hconn.execute("UPDATE queue_messages SET deliver_at = ?, locked_until = NULL WHERE id = ?", (near, row_id))
 
     def deliver(self, row_id: int, ack: bool = True, crash_at: int | None = None, reset_attempts: bool = False,
-                on_commit=None) -> dict:
+                on_commit=None, in_thread: bool = False) -> dict:
         """Deliver exactly that row through the real poll_one / _handle_message / ack path.
         crash_at = k: the k-th write commit of this delivery (0 = the poll's claim commit) is rolled back
-        and the process dies there."""
+        and the process dies there.  in_thread: the delivery runs on a fresh worker thread (joined before returning), so
+        every thread-local connection of the store / queue / event store is new - what a QueueProcessor pool thread sees."""
+        if in_thread:
+            import threading
+            box: dict = {}
+
+            def run():
+                try:
+                    box["r"] = self.deliver(row_id, ack=ack, crash_at=crash_at, reset_attempts=reset_attempts, on_commit=on_commit)
+                except BaseException as e:  # noqa
+                    box["e"] = e
+            t = threading.Thread(target=run, name="verif-worker")
+            t.start()
+            t.join()
+            if "e" in box:
+                raise box["e"]
+            return box["r"]
         self._make_visible(row_id, reset_attempts)
         base = _Obs.count
         res = {"polled": None, "crashed": False, "exception": None}
